@@ -52,11 +52,13 @@ CRIT = [
     "tab\t", "\x0b", "\x0c", "\x1c", "\x1e", "\x85", " ", " ", "\xa0x", "�", "\U0001F600", "café", " lead", "trail ", "  ",
     "null", "None", "0", "\u007f", "/a[1]", "a\\nb", "\\u0041", "{}", "퟿", "",
 ]
-PATHS = ["/a[1]", "/a/b[2]", "/a/b/c[1]", "/a/comment()[1]", "/a/*[3]", "/ns:a/ns:b[1]", "/a/b[12]/comment()[2]", "/r/p:x[1]"]
+PATHS = ["/a[1]", "/a/b[2]", "/a/b/c[1]", "/a/comment()[1]", "/a/*[3]", "/ns:a/ns:b[1]", "/a/b[12]/comment()[2]", "/r/p:x[1]", "/a/caf\u00e9[1]", "/a/\U00020000[2]", "/r/\U00010400p:x[1]"]
 # legal XML names that are also JSON literals: a reader that decodes fields by their look, not by their role, changes them
 JSONISH = ["null", "true", "false", "NaN", "Infinity"]
-TAGS = ["b", "c", "{uri:x}c", "item", "{http://www.w3.org/1999/xhtml}p"] + JSONISH
-NAMES = ["k", "id", "{http://www.w3.org/XML/1998/namespace}id", "data-x", "{uri:x}n"] + JSONISH
+# legal XML names outside ASCII and outside the BMP (names, paths, prefixes are written as they are, not as JSON)
+WIDE = ["caf\u00e9", "\u30bf\u30b0", "k\U00010400y", "\U00020000"]
+TAGS = ["b", "c", "{uri:x}c", "item", "{http://www.w3.org/1999/xhtml}p"] + JSONISH + WIDE
+NAMES = ["k", "id", "{http://www.w3.org/XML/1998/namespace}id", "data-x", "{uri:x}n"] + JSONISH + WIDE
 
 PATH_RE = re.compile(r"^(/(\*|comment\(\)|[^/\[\]]+)(\[\d+\])?)+$")
 
@@ -99,8 +101,8 @@ def rand_action(r):
     if k == 10:
         return A.InsertComment(p(), r.randint(0, 12), s())
     if k == 11:
-        return A.InsertNamespace(r.choice(["p", "ns", "xhtml", "null", "true"]), r.choice(["uri:x", "http://www.w3.org/1999/xhtml", "null"]))
-    return A.DeleteNamespace(r.choice(["p", "ns", "null", "false"]))
+        return A.InsertNamespace(r.choice(["p", "ns", "xhtml", "null", "true", "\U00010400p", "\u00e9"]), r.choice(["uri:x", "http://www.w3.org/1999/xhtml", "null", "urn:\u00e9:\U00020000"]))
+    return A.DeleteNamespace(r.choice(["p", "ns", "null", "false", "\U00010400p"]))
 
 
 def mutate_text(r, text):
